@@ -36,6 +36,7 @@ def Ghost.cut (g : Ghost) (ws : List FW) (k : Nat) : Ghost :=
 
 def gstep (c : Cfg) (σ : RunSt) (g : Ghost) : Op → Ghost
   | .mempool _ => g
+  | .mempoolDrain _ => g
   | .reap =>
     match (reap c σ.n σ.mempool).2 with
     | .qput b :: _ => { g with handed := g.handed ++ [b], ever := g.ever ++ [b] }
@@ -119,14 +120,14 @@ theorem bound_mono (c : Cfg) (t : Nat) : bound c t ≤ bound c (t + 1) := by unf
 
 /-! ## the operations -/
 
-theorem step_mempool {c : Cfg} {σ : RunSt} {g : Ghost} (h : FInv c σ g) (txs : List Bytes) :
-    FInv c { σ with mempool := txs } g :=
+theorem step_mempool {c : Cfg} {σ : RunSt} {g : Ghost} (h : FInv c σ g) (txs : List Bytes) (d : Bool) :
+    FInv c { σ with mempool := txs, drain := d } g :=
   ⟨h.cuts, h.live, h.synced, h.wm, h.first, h.tb, h.all, h.qdisk, h.seen, h.sub, h.everH, h.everM, h.cutEver, h.cutFull,
    h.safe, h.exact⟩
 
 /-- the state after a restart on the image after `k` writes that built the producer node `P` -/
 def recSt (σ : RunSt) (P : Producer.Node) (k : Nat) : RunSt :=
-  { n := { prod := P, q := Queue.reload { mem := [], disk := (image σ k).qdisk }, seen := (image σ k).seen, tick := σ.n.tick }, before := image σ k, ws := [], mempool := σ.mempool }
+  { n := { prod := P, q := Queue.reload { mem := [], disk := (image σ k).qdisk }, seen := (image σ k).seen, tick := σ.n.tick }, before := image σ k, ws := [], mempool := σ.mempool, drain := σ.drain }
 
 /-- **restart on the image after the first `k` writes of the last operation — for every `k`**: the node comes up
 again and the invariant holds for the ghost history cut at `k` -/
